@@ -3129,6 +3129,126 @@ example (env : Env) (f : Flag) :
 #print axioms m_stored_segment_metadata
 #print axioms evaluate_stored_segment_metadata
 
+/-! ## 12. Reported metadata of stored flags (PARTIAL: one-step lemma only)
+
+  The full statement — NOT proved here — is
+
+      eraseObs (evaluate (remetaStore env g) f) = eraseObs (evaluate env f)      for every `MetaOnly g`
+
+  i.e. ANY change to the metadata of the flags held in the store (version and `excludeFromSummaries`
+  included) is invisible except in the two event fields that report them (`eraseEv`).  What is
+  proved is the step where the two runs actually differ: `e_prereqLoop_remeta`, a simulation of
+  `prereqLoop` under states that agree up to `eraseSt`, for recursive evaluators related by `RecSim`.
+  Missing: the (routine) simulation lemmas for the functions that never touch `events`, and the
+  induction on fuel that establishes `RecSim` for `evalFlag`.  Until then the full statement is
+  carried by the harness family `metadata-store-reported` on the real code, and by
+  `evaluate_stored_metadata` (section 10) for everything but the two reported fields.
+-/
+
+open LD
+
+/-- Forget the two event fields that report a prerequisite flag's metadata. -/
+def eraseEv (e : Event) : Event := { e with prereqVersion := 0, excludeFromSummaries := false }
+def eraseObs (o : Obs) : Obs := { o with events := o.events.map eraseEv }
+def eraseSt (st : St) : St := { st with events := st.events.map eraseEv }
+
+theorem eraseSt_eq_iff (a b : St) : eraseSt a = eraseSt b ↔
+    (a.status = b.status ∧ a.cache = b.cache ∧ a.logs = b.logs ∧ a.flagLookups = b.flagLookups ∧
+      a.segLookups = b.segLookups ∧ a.bsQueries = b.bsQueries ∧ a.memChecks = b.memChecks ∧
+      a.events.map eraseEv = b.events.map eraseEv) := by
+  cases a; cases b
+  simp only [eraseSt, St.mk.injEq]
+  tauto
+
+theorem eraseSt_logErr (env : Env) (k : String) (e : EvalErr) {a b : St}
+    (h : eraseSt a = eraseSt b) : eraseSt (LD.logErr env k e a) = eraseSt (LD.logErr env k e b) := by
+  rw [eraseSt_eq_iff] at h ⊢
+  obtain ⟨h1, h2, h3, h4, h5, h6, h7, h8⟩ := h
+  unfold LD.logErr
+  split <;> simp [*]
+
+/-- Two recursive evaluators agree modulo `g` and modulo the two reported event fields. -/
+def RecSim (g : Flag → Flag) (rec' rec : LD.FlagRec) : Prop :=
+  ∀ pf chain a b, eraseSt a = eraseSt b →
+    (rec' (g pf) chain a).1 = (rec pf chain b).1 ∧
+      eraseSt (rec' (g pf) chain a).2 = eraseSt (rec pf chain b).2
+
+/-- One-step lemma: the prerequisite loop over a store whose flags had ANY metadata change. -/
+theorem e_prereqLoop_remeta {g : Flag → Flag} (hg : MetaOnly g) (env : Env) {rec' rec : LD.FlagRec}
+    (hrec : RecSim g rec' rec) (f : Flag) (chain : List String) :
+    ∀ ps a b, eraseSt a = eraseSt b →
+      (LD.prereqLoop rec' (remetaStore env g) f chain ps a).1 =
+        (LD.prereqLoop rec env f chain ps b).1 ∧
+      eraseSt (LD.prereqLoop rec' (remetaStore env g) f chain ps a).2 =
+        eraseSt (LD.prereqLoop rec env f chain ps b).2 := by
+  intro ps
+  induction ps with
+  | nil => intro a b h; exact ⟨rfl, h⟩
+  | cons p ps ih =>
+    intro a b h
+    have h1 : eraseSt { a with flagLookups := a.flagLookups ++ [p.key] } =
+        eraseSt { b with flagLookups := b.flagLookups ++ [p.key] } := by
+      rw [eraseSt_eq_iff] at h ⊢
+      obtain ⟨h1, h2, h3, h4, h5, h6, h7, h8⟩ := h
+      simp [*]
+    simp only [LD.prereqLoop, findFlag_remeta]
+    cases hf : env.store.findFlag p.key with
+    | none => exact ⟨rfl, h1⟩
+    | some pf =>
+      simp only [Option.map_some, hg.key, hg.on]
+      obtain ⟨m, bx, hgpf⟩ := hg pf
+      have hexp : ∀ r, LD.isExperimentResult (g pf) r = LD.isExperimentResult pf r := by
+        intro r; rw [hgpf]; rfl
+      by_cases hc : chain.contains pf.key
+      · simp only [hc, if_true]
+        exact ⟨trivial, eraseSt_logErr _ _ _ h1⟩
+      · simp only [hc]
+        have hr := hrec pf chain _ _ h1
+        revert hr
+        rcases rec' (g pf) chain { a with flagLookups := a.flagLookups ++ [p.key] } with ⟨o', s'⟩
+        rcases rec pf chain { b with flagLookups := b.flagLookups ++ [p.key] } with ⟨o, s⟩
+        rintro ⟨ho, hs⟩
+        simp only at ho hs
+        subst ho
+        cases o' with
+        | oof => exact ⟨rfl, hs⟩
+        | done d ok =>
+          have hst : a.status = b.status := ((eraseSt_eq_iff _ _).1 h).1
+          have hs3 : eraseSt { s' with status := updateStatus a.status s'.status } =
+              eraseSt { s with status := updateStatus b.status s.status } := by
+            rw [eraseSt_eq_iff] at hs ⊢
+            obtain ⟨h1, h2, h3, h4, h5, h6, h7, h8⟩ := hs
+            simp [*]
+          simp only [hexp]
+          cases ok with
+          | false => exact ⟨rfl, hs3⟩
+          | true =>
+            simp only [Bool.not_true, Bool.false_eq_true, if_false]
+            have hs4 : eraseSt (if env.opts.recorder then
+                  { ({ s' with status := updateStatus a.status s'.status } : St) with
+                    events := s'.events ++
+                      [{ targetKey := f.key, prereqKey := pf.key,
+                         prereqVersion := (g pf).fmeta.version,
+                         result := ⟨d, isExperimentResult pf d.reason⟩,
+                         excludeFromSummaries := (g pf).excludeFromSummaries }] }
+                else { s' with status := updateStatus a.status s'.status }) =
+                eraseSt (if env.opts.recorder then
+                  { ({ s with status := updateStatus b.status s.status } : St) with
+                    events := s.events ++
+                      [{ targetKey := f.key, prereqKey := pf.key,
+                         prereqVersion := pf.fmeta.version,
+                         result := ⟨d, isExperimentResult pf d.reason⟩,
+                         excludeFromSummaries := pf.excludeFromSummaries }] }
+                else { s with status := updateStatus b.status s.status }) := by
+              split
+              · rw [eraseSt_eq_iff] at hs ⊢
+                obtain ⟨h1, h2, h3, h4, h5, h6, h7, h8⟩ := hs
+                simp [*, eraseEv]
+              · exact hs3
+            split
+            · exact ⟨rfl, hs4⟩
+            · exact ih _ _ hs4
+
 end LD.C20
 
 #print axioms LD.C20.metadata
